@@ -5,7 +5,7 @@ import numpy as np
 
 from vf import envs, episodes, hyp, treecmp
 from vf.hyp import st
-from vf.props.C13 import QUICK_ENVS, SHORT_ENTRY
+from vf.props.C13 import QUICK_ENVS, SHORT_ENTRY, stacked_bundle
 from vf.runner import Ctx
 
 PROPERTY = "C14"
@@ -161,6 +161,16 @@ def work_items(tier, flt):
     for env, B, flag in big:
         if envs.select_envs([env], flt):
             items.append({"env": env, "entry": SHORT_ENTRY[env], "flag": flag, "B": B, "n": 2, "cost": 6})
+    # the batched wrappers over another Wrapper (harness-side Wrapper subclasses, jumanji's MultiToSingleWrapper)
+    stacks = [("Snake", 3, False, "tag"), ("Knapsack", 2, True, "zeromid")]
+    if tier != "quick":
+        stacks += [("Game2048", 4, True, "tag"), ("Maze", 3, False, "zeromid"), ("Connector", 3, True, "m2smin"),
+                   ("Snake", 130, False, "tag")]
+    for env, B, flag, kind in stacks:
+        if envs.select_envs([env], flt):
+            entry = "g6a3t50rw" if (env == "Connector" and kind == "m2smin") else SHORT_ENTRY[env]
+            items.append({"env": env, "entry": entry, "flag": flag, "B": B, "stack": kind,
+                          "n": max(2, int((6 if tier == "quick" else 20) * scale)), "cost": 2})
     return items
 
 
@@ -169,10 +179,13 @@ def run_item(item, seed, tier):
     env, entry, flag, B = item["env"], item["entry"], item["flag"], item["B"]
     with ctx.guard(env, {"env": env, "entry": entry, "flag": flag, "B": B, "stage": "construct"}):
         b = envs.bundle(env, entry)
+        if item.get("stack"):
+            b = stacked_bundle(b, item["stack"])
         rig = Rig(b, flag)
 
         def one(case_in):
-            case = {"env": env, "entry": entry, "flag": flag, "keys": [list(k) for k in case_in["keys"]], "actions": []}
+            case = {"env": env, "entry": entry, "flag": flag, "keys": [list(k) for k in case_in["keys"]], "actions": [],
+                    "stack": item.get("stack", False)}
 
             def fail(oracle, sig, msg):
                 ctx.fail(oracle, env, sig, f"{msg} [entry={entry} flag={flag} B={B} keys={case['keys']}]", case,
@@ -195,6 +208,8 @@ def replay(case):
     env = case["env"]
     with ctx.guard(env, case):
         b = envs.bundle(env, case["entry"])
+        if case.get("stack"):
+            b = stacked_bundle(b, case["stack"])
         rig = Rig(b, case["flag"])
         if case.get("stage") == "construct":
             return []
